@@ -25,6 +25,8 @@ func checkC07(p *Prog, r *Report) {
 	// "finite": the partial operations of the nitrogen routines stay inside their domains (shared machinery with C06.R6)
 	domainRule(p, r, "C07.R7", "the nitrogen routines (denitrification, mineralisation, transport, daily bookkeeping) and the set-up of the organic N pools from the soil description", []string{"hermes.Denitr", "hermes.Denitmo", "hermes.mineral", "hermes.nmove", "hermes.Nitro", "hermes.SoilFileData.cNSetup", "hermes.Init"}, 60)
 	c07CropShareOfFixation(p, r)
+	// a residue-table row lost to a header skip leaves the crop without parameters: 0/0 in the residue split (shared with C10.R13)
+	headerLineCounts(p, r, "C07.R14")
 }
 
 // ---------------------------------------------------------------- R1 decay pairing
